@@ -28,8 +28,8 @@ CUSTOM_VALUES = [1, 'x', 'long text', (1, 2), None, 2.5, True]
 @st.composite
 def c06_case(draw, max_tasks=8):
     fwd = draw(st.booleans())
-    c = draw(sched.fwd_case(max_tasks=max_tasks, min_tasks=1) if fwd
-             else sched.bwd_case(max_tasks=max_tasks, min_tasks=1))
+    c = draw(sched.fwd_case(max_tasks=max_tasks, min_tasks=1, lookalike_ids=True) if fwd
+             else sched.bwd_case(max_tasks=max_tasks, min_tasks=1, lookalike_ids=True))
     for t in c['spec']['tasks']:
         if draw(st.integers(0, 2)) == 0:
             t['custom'] = {k: draw(st.sampled_from(CUSTOM_VALUES)) for k in draw(st.sets(st.sampled_from(['tag', 'prio', 'note', 'gantt_section']), max_size=2))}
@@ -145,6 +145,13 @@ def check(case, exclude=True):
     o3 = sched.run(case)
     if o3.error is not None or result_sig(o3) != base:
         res.v('C06:fresh-scheduler-with-equal-inputs-differs', _first_diff(base, result_sig(o3)) if o3.error is None else dict(error=repr(o3.error)))
+    if case.get('reuse') or case.get('wrap'):
+        # the result is a function of the VALUES of WBS, resources, start and clock: used objects, user-defined resource
+        # classes and earlier plans on the same objects make no difference
+        o5 = sched.run(dict(case, reuse=False, wrap=0))
+        if o5.error is not None or result_sig(o5) != base:
+            res.v('C06:result-depends-on-earlier-use-of-the-same-objects',
+                  _first_diff(base, result_sig(o5)) if o5.error is None else dict(error=repr(o5.error)))
     # ---- (4) clock independence (forward)
     if case['dir'] == 'fwd' and case.get('N2'):
         c2 = dict(case, N=case['N2'])
